@@ -120,12 +120,20 @@ impl Fix {
         }
         Fix(r)
     }
-    /// multiply a non-negative value by a small constant (shift-and-add)
+    /// multiply a non-negative value by a small constant (shift-and-add over the set bits, no
+    /// more iterations than the bit length of k)
     pub fn mul_small(self, k: u64) -> Fix {
+        if k == 1 { return self; }
+        if k == 2 { return self.shl(1); }
+        if k == 3 * (1u64 << 53) + 13 {
+            return self.shl(54).add(self.shl(53)).add(self.shl(3)).add(self.shl(2)).add(self);
+        }
         let mut acc = Fix::zero();
+        let mut kk = k;
         let mut i = 0;
-        while i < 64 {
-            if (k >> i) & 1 != 0 { acc = acc.add(self.shl(i)); }
+        while kk != 0 {
+            if kk & 1 != 0 { acc = acc.add(self.shl(i)); }
+            kk >>= 1;
             i += 1;
         }
         acc
